@@ -58,8 +58,19 @@ from typing import Any, Dict, List, Optional, Sequence, Tuple
 
 from . import common as C
 
-TYPE_IDS = [4001, 4002, 4003]          # 8-byte, 16-byte and 0-byte (signal) payloads
-TYPE_SIZES = [8, 16, 0]
+TYPE_IDS = [4001, 4002, 4003, 0, 1]    # 8-byte, 16-byte and 0-byte (signal) payloads; the core signals EXIT (0), KILL (1)
+TYPE_SIZES = [8, 16, 0, 0, 0]
+ZERO_PAD = 3                           # the data logger passes a fixed-size, zero-padded array as `msg_types`
+
+
+def real_types(types) -> List[int]:
+    """what `DataSet.__init__` is given for a selection of the harness: ALL_MESSAGE_TYPES or the type ids, followed by
+    the zero padding of `MDF_ADD_DATA_SET.msg_types` (the code drops entries <= 0: the padding is not a request for
+    message type 0, so a data set never selects EXIT unless it selects everything)"""
+    if types == "A":
+        return [2147483647]
+    assert 3 not in types, "type id 0 cannot be selected by a list (it is the padding value)"
+    return [TYPE_IDS[t] for t in types] + [0] * ZERO_PAD
 FORMATS = ["raw", "json", "quicklogger", "msg_header"]
 
 DEFS_SRC = '''"""hand-written message definitions for the C17 harness (same shape as pyrtma.compile output)"""
@@ -166,7 +177,8 @@ def env() -> Dict[str, Any]:
     dcm.print = lambda *a, **k: None  # the writer prints when it exits
     _ENV.update(dict(pyrtma=pyrtma, dcm=dcm, DataSet=DataSet, LoggingMetadata=LoggingMetadata,
                      get_formatter=get_formatter, QLReader=QLReader, dir=d, defs=defs, mod=mod,
-                     types=[mod.MDF_VDL_A, mod.MDF_VDL_B, mod.MDF_VDL_C],
+                     types=[mod.MDF_VDL_A, mod.MDF_VDL_B, mod.MDF_VDL_C, pyrtma.core_defs.MDF_EXIT,
+                            pyrtma.core_defs.MDF_KILL],
                      hdr_cls=pyrtma.get_header_cls()))
     if own:
         import atexit
@@ -572,8 +584,8 @@ def run_sched_case(case: Dict[str, Any]) -> Dict[str, Any]:
             if ctl.started:
                 ctl.wait_arrival()                   # the writer is parked at its first gate (or has ended)
             for i, d in enumerate(case["ds"]):
-                types = [2147483647] if d["types"] == "A" else [TYPE_IDS[t] for t in d["types"]]
-                ds = E["DataSet"]("c", f"ds{i}", f"ds{i}", "f", E["get_formatter"](d["fmt"]), d["interval"], types, md)
+                ds = E["DataSet"]("c", f"ds{i}", f"ds{i}", "f", E["get_formatter"](d["fmt"]), d["interval"],
+                                  real_types(d["types"]), md)
                 _wrap(ctl, ds, i)
                 dc.add_data_set(ds)
                 dsets.append(ds)
